@@ -1,0 +1,7 @@
+//go:build verif
+
+package crd
+
+// Contracts for the verification framework in /verif (comment-only).
+// The CRD replica cache only reads informer caches / the dynamic client: no effect on IPAM state.
+//@ func (CrdCache).GetReplicas trusted noeffect
